@@ -942,7 +942,61 @@ func (c *Ctx) cmp(op Op, a, b *T) *T {
 	return c.mk(tkey{op: op, w: 0, a: a.ID, b: b.ID}, a, b, nil, nil)
 }
 
+// staticRange returns syntactic unsigned bounds [lo, hi] of t.
+func staticRange(t *T, depth int) (uint64, uint64) {
+	m := mask(t.W)
+	if depth > 6 {
+		return 0, m
+	}
+	switch t.Op {
+	case OConst:
+		return t.K, t.K
+	case OZExt:
+		return staticRange(t.A, depth+1)
+	case OConcat:
+		la, ha := staticRange(t.A, depth+1)
+		lb, hb := staticRange(t.B, depth+1)
+		return la<<t.B.W | lb, ha<<t.B.W | hb
+	case OIte:
+		l1, h1 := staticRange(t.B, depth+1)
+		l2, h2 := staticRange(t.C, depth+1)
+		if l2 < l1 {
+			l1 = l2
+		}
+		if h2 > h1 {
+			h1 = h2
+		}
+		return l1, h1
+	case OAnd:
+		if t.B.IsConst() {
+			return 0, t.B.K
+		}
+	case OOr:
+		if t.B.IsConst() {
+			return t.B.K, m
+		}
+	case OURem:
+		if t.B.IsConst() && t.B.K > 0 {
+			return 0, t.B.K - 1
+		}
+	}
+	if kw := knownWidth(t); kw < t.W && kw < 64 {
+		return 0, (uint64(1) << kw) - 1
+	}
+	return 0, m
+}
+
 func (c *Ctx) Ult(a, b *T) *T {
+	if a.W > 0 && (a.Op == OConcat || a.Op == OIte || a.Op == OOr || a.Op == OAnd || b.Op == OConcat || b.Op == OIte || b.Op == OOr || b.Op == OAnd) {
+		la, ha := staticRange(a, 0)
+		lb, hb := staticRange(b, 0)
+		if ha < lb {
+			return c.True
+		}
+		if la >= hb {
+			return c.False
+		}
+	}
 	if b.IsConst() {
 		if b.K == 0 {
 			return c.False
